@@ -1684,6 +1684,12 @@ fn drop_stream_ref(inner: &Mutex<Inner>, key: store::Key) {
             while let Some(promise) = ppp.pop(stream.store_mut()) {
                 counts.transition(promise, |counts, stream| {
                     maybe_cancel(stream, actions, counts);
+
+                    // Nobody can read what this pushed stream has buffered
+                    // either, so its recv window goes back to the connection.
+                    actions
+                        .recv
+                        .release_closed_capacity(stream, &mut actions.task, counts);
                 });
             }
         }
